@@ -21,6 +21,9 @@ def parseToken? (s : String) : Option Token :=
     | none => none
   else if s.startsWith "i:" then (parseInt? (s.drop 2).toString).map .int
   else if s.startsWith "d:" then (parseHex? (s.drop 2).toString).map .data
+  else if s = "b:1" then some (.bool true)
+  else if s = "b:0" then some (.bool false)
+  else if s.startsWith "x:" then some .other
   else none
 
 def parseTokens? (s : String) : Option (List Token) := (splitList s ',').mapM parseToken?
@@ -29,12 +32,19 @@ def showToken : Token → String
   | .op n => "o:" ++ toString n
   | .int z => "i:" ++ toString z
   | .data d => "d:" ++ toHex d
+  | .bool b => if b then "b:1" else "b:0"
+  | .other => "x:"
 
 def showTokens (ts : List Token) : String := "[" ++ joinWith "," (ts.map showToken) ++ "]"
 
+/-- the family, plus the payload CScriptTruncatedPushDataError carries in `.data` -/
+def showIterErr : IterErr → String
+  | .missingLen => " err:invalidscript"
+  | .truncated d => " err:invalidscript trunc=" ++ toHex d
+
 def showCookErr : Option CookErr → String
   | none => ""
-  | some (.iter _) => " err:invalidscript"
+  | some (.iter e) => showIterErr e
   | some (.py e) => " err:" ++ e.family
 
 def showCooked (p : List Token × Option CookErr) : String := showTokens p.1 ++ showCookErr p.2
@@ -44,7 +54,7 @@ def showRawOp (o : RawOp) : String :=
     ++ toString o.sopIdx ++ ")"
 
 def showRaw (p : List RawOp × Option IterErr) : String :=
-  "[" ++ String.join (p.1.map showRawOp) ++ "]" ++ (if p.2.isSome then " err:invalidscript" else "")
+  "[" ++ String.join (p.1.map showRawOp) ++ "]" ++ (match p.2 with | some e => showIterErr e | none => "")
 
 def bit (b : Bool) : String := if b then "1" else "0"
 
@@ -76,7 +86,7 @@ def buildLine (ts : List Token) : String :=
       | .error e => "err:" ++ e.family
     let m := toHex s ++ " " ++ showCooked c ++ " " ++ re
     -- the read-back laws are claimed for opcode tokens 0x4f..0xff only (a token o:<push opcode> is not a push)
-    let inDomain := ts.all (fun t => match t with | .op n => 0x4f ≤ n | _ => true)
+    let inDomain := ts.all (fun t => match t with | .op n => 0x4f ≤ n | .other => false | _ => true)
     match Spec.Script.build ts with
     | none => "model-spec-mismatch build model=" ++ m ++ " spec=none"
     | some b =>
@@ -145,6 +155,9 @@ def handle (op : String) (args : List String) : Option String :=
            | .ok none => "none"
            | .error e => "err:" ++ e.family)
           (toString (Spec.Script.numDecode b))
+      | none => badArgs
+  | "c08.opnew", [z] => some <| match parseInt? z with
+      | some z => if z = 256 then badArgs else showResNat (cscriptOpNew z)   -- 256 would grow the real table
       | none => badArgs
   | "c08.opn.enc", [z] => some <| match parseInt? z with
       | some z => showResNat (encodeOpN z)
